@@ -796,3 +796,64 @@ func g2lTranslate(t *g2lTarget) string {
 	// a body that can fall off its end (no results) needs nothing; one with results always ends in return
 	return o.b.String()
 }
+
+// g2lDecls translates package-level constants and variables (basic literals, composite
+// literals, references to each other) into Lean definitions, in the order given.
+func g2lDecls(file string, names []string) string {
+	f := parseFile(file)
+	t := &g2lTarget{file: file, fn: "(package-level declarations)"}
+	g := &g2l{t: t, opt: map[string]bool{}, pkgs: map[string]bool{}}
+	for _, im := range f.Imports {
+		p, _ := strconv.Unquote(im.Path.Value)
+		n := p[strings.LastIndex(p, "/")+1:]
+		if im.Name != nil {
+			n = im.Name.Name
+		}
+		g.pkgs[n] = true
+	}
+	var b strings.Builder
+	for _, name := range names {
+		var spec *ast.ValueSpec
+		var idx int
+		for _, d := range f.Decls {
+			gd, ok := d.(*ast.GenDecl)
+			if !ok || (gd.Tok != token.VAR && gd.Tok != token.CONST) {
+				continue
+			}
+			for _, sp := range gd.Specs {
+				vs := sp.(*ast.ValueSpec)
+				for i, n := range vs.Names {
+					if n.Name == name {
+						spec, idx = vs, i
+					}
+				}
+			}
+		}
+		if spec == nil || idx >= len(spec.Values) {
+			fail("go2lean %s: package-level %s not found (or declared without a value)", file, name)
+		}
+		v := spec.Values[idx]
+		ty := ""
+		if spec.Type != nil {
+			ty = g2lType(g, spec.Type)
+		} else if cl, ok := v.(*ast.CompositeLit); ok {
+			ty = g2lType(g, cl.Type)
+		} else if ue, ok := v.(*ast.UnaryExpr); ok && ue.Op == token.AND {
+			if cl, ok := ue.X.(*ast.CompositeLit); ok {
+				ty = g2lType(g, cl.Type)
+			}
+		} else if bl, ok := v.(*ast.BasicLit); ok {
+			switch bl.Kind {
+			case token.STRING:
+				ty = "String"
+			case token.INT:
+				ty = "Int"
+			}
+		}
+		if ty == "" {
+			fail("go2lean %s: cannot tell the type of %s", file, name)
+		}
+		fmt.Fprintf(&b, "/-- `%s` (%s) -/\ndef %s : %s := %s\n\n", name, file, g2lIdent(name), ty, g.expr(v))
+	}
+	return b.String()
+}
